@@ -101,6 +101,18 @@ def run_twin(base_name, pri_units, dunit, libu, dshape, theta, seed, uplan=None)
                 hb[f"v{i}"] = np.full(len(theta), 0.01 ** i) * f_ * uu / u.day**i
             out["lnunm"] = np.asarray(hb.ln_unmarginalized_likelihood(data_e), dtype=float)
     if uplan is not None:
+        # prior draws including the linear parameters (K cap, trend widths): the same seed must give physically equal rows
+        # whatever units the prior was declared in (cached per prior)
+        dk = (base_name, tuple(pri_units))
+        if dk not in _DRAWS:
+            ps = prior.sample(size=12, generate_linear=True, rng=np.random.default_rng(17))
+            cols = {"P": np.atleast_1d(ps["P"].to_value(u.day)), "e": np.atleast_1d(np.asarray(ps["e"], dtype=float)), "K": np.atleast_1d(ps["K"].to_value(u.km / u.s))}
+            for i in range(kw["poly_trend"]):
+                cols[f"v{i}"] = np.atleast_1d(ps[f"v{i}"].to_value(u.km / u.s / u.day**i))
+            for k in range(1, kw["n_offsets"] + 1):
+                cols[f"dv0_{k}"] = np.atleast_1d(ps[f"dv0_{k}"].to_value(u.km / u.s))
+            _DRAWS[dk] = cols
+        out["prior_draws"] = _DRAWS[dk]
         rng = seams.ScriptedGenerator(9, uniform_fn=lambda size, k: uplan[: int(size)])
         j2 = tj.TheJoker(prior, rng=rng)
         res = j2.rejection_sample(data, lib, in_memory=True, n_linear_samples=1)
@@ -121,6 +133,7 @@ def run_twin(base_name, pri_units, dunit, libu, dshape, theta, seed, uplan=None)
 
 
 _CANON = {}
+_DRAWS = {}
 
 
 def canonical(base_name, di, seed):
@@ -163,6 +176,17 @@ def check_base(base_name, di, quick, seed, part, only_priors=None, only=None):
         if not np.allclose(tw["lnL_userfile"], tw["lnL"], rtol=1e-9, atol=1e-9):
             part.violation(case, "a user file (same file name re-written by each twin in its own column units) gives other values than the in-memory path",
                            expected=tw["lnL"], observed=tw["lnL_userfile"])
+            continue
+        bad_draw = None
+        for nm, v0_ in canon.get("prior_draws", {}).items():
+            v_ = tw.get("prior_draws", {}).get(nm)
+            # (float32 storage of converted constants inside pytensor: 1e-5 relative)
+            if v_ is None or v_.shape != v0_.shape or not np.allclose(v_, v0_, rtol=2e-5, atol=1e-9):
+                bad_draw = (nm, v0_, v_)
+                break
+        if bad_draw is not None:
+            part.violation(dict(case, column=bad_draw[0]), "prior.sample(generate_linear=True) with an equal seed is not physically the same draw when the prior is "
+                           "declared in other units", expected=bad_draw[1], observed=bad_draw[2])
             continue
         if "lnL_chunks" in tw and not np.allclose(tw["lnL_chunks"], tw["lnL"], rtol=1e-9, atol=1e-9):
             part.violation(case, "a library file extended by a chunk in these column units (append accepted) does not hold the same physical library",
